@@ -15,6 +15,10 @@
 //     was present throughout exactly once and no entry twice.
 // Header of a case:  <P|K|V><0|1>,<ntables>,<niters>|ops   (1 = colliding hash functor)
 //                    B<P|K|V><0|1>,...|ops  = big-population case: printed as "k big", oracle only.
+//                    S<0|1|2>,<size>|ops    = storage case (Hashtable<int,int> with hash = key / key%3 / key*2654435761):
+//                                             after every op the whole slot array is printed: hash, key, value, BUCKET_PREV,
+//                                             BUCKET_NEXT, MAP_TO, MAPPED_FROM of every slot, _freeHeadIdx, _numItems, index width --
+//                                             compared with the extracted storage-layer model (coq/theories/Cont/HtStore.v).
 #include <stdio.h>
 #include <stdlib.h>
 #include <string.h>
@@ -674,6 +678,98 @@ template<class T, class HF> static void run_case(int k, char var, bool big, int 
    fflush(stdout);
 }
 
+
+// ------------------------------------------------------------------------------------------------
+// storage cases: the slot array itself
+struct IdHF  {uint32 operator()(const int & k) const {return (uint32)k;}               bool AreKeysEqual(const int & a, const int & b) const {return a==b;}};
+struct MulHF {uint32 operator()(const int & k) const {return ((uint32)k)*2654435761u;} bool AreKeysEqual(const int & a, const int & b) const {return a==b;}};
+
+static std::string idx_str(uint32 v) {if (v == MUSCLE_HASHTABLE_INVALID_SLOT_INDEX) return "-"; char b[32]; snprintf(b, sizeof(b), "%u", v); return b;}
+
+template <class T> static std::string dump_store(const T & t)
+{
+   std::ostringstream o;
+   if (t._table == NULL) {o << "S:" << t._tableSize << "/null"; return o.str();}
+   o << "S:" << t._tableSize << "/" << t.GetTableIndexType() << "/" << t._numItems << "/" << idx_str(t._freeHeadIdx) << "|";
+   std::ostringstream b;
+   for (uint32 i=0; i<t._tableSize; i++)
+   {
+      const typename T::HashtableEntryBaseType * e = t.IndexToEntryUnchecked(i);
+      if (i) b << ",";
+      if (e->_hash == MUSCLE_HASHTABLE_INVALID_HASH_CODE) b << "x._._";
+                                                     else b << e->_hash << "." << e->_key << "." << e->_value;
+      b << "." << idx_str(t.GetEntryIndexValue(e, T::HTE_INDEX_BUCKET_PREV)) << "." << idx_str(t.GetEntryIndexValue(e, T::HTE_INDEX_BUCKET_NEXT))
+        << "." << idx_str(t.GetEntryIndexValue(e, T::HTE_INDEX_MAP_TO))      << "." << idx_str(t.GetEntryIndexValue(e, T::HTE_INDEX_MAPPED_FROM));
+   }
+   const std::string body = b.str();
+   if (t._tableSize <= 40) o << body;
+   else
+   {
+      unsigned long long h = 14695981039346656037ULL;   // FNV-1a, 64 bit
+      for (size_t i=0; i<body.size(); i++) {h ^= (unsigned char) body[i]; h *= 1099511628211ULL;}
+      char hb[40]; snprintf(hb, sizeof(hb), "#%016llx", h); o << hb;
+   }
+   return o.str();
+}
+
+template <class T> static void run_store_case(int k, int size, const std::string & body)
+{
+   T t;
+   if (size > 0) (void) t.EnsureSize((uint32)size);
+   std::map<int,int> ideal;   // the oracle of this stream: a plain map
+   std::string out;
+   bool oracle_ok = true; std::string why;
+   std::vector<std::string> ops = split(body, ';');
+   for (size_t n=0; n<ops.size(); n++)
+   {
+      if (ops[n].empty()) continue;
+      std::vector<std::string> a = split(ops[n], ':');
+      std::ostringstream r;
+      if (a[0] == "sp")
+      {
+         const int key = atoi(a[1].c_str()), val = atoi(a[2].c_str());
+         r << (t.Put(key, val).IsOK() ? "s0" : "s1"); ideal[key] = val;
+      }
+      else if (a[0] == "sg")
+      {
+         const int key = atoi(a[1].c_str());
+         const int * v = t.Get(key);
+         if (v) r << "v" << *v; else r << "none";
+         std::map<int,int>::const_iterator it = ideal.find(key);
+         if ((v != NULL) != (it != ideal.end()) || (v && (*v != it->second))) {oracle_ok = false; why = "Get disagrees with the ideal map at op " + ops[n];}
+      }
+      else if (a[0] == "sr")
+      {
+         const int key = atoi(a[1].c_str());
+         const bool had = (ideal.erase(key) > 0);
+         const bool ok = t.Remove(key).IsOK();
+         r << (ok ? "s0" : "s1");
+         if (ok != had) {oracle_ok = false; why = "Remove disagrees with the ideal map at op " + ops[n];}
+      }
+      else if (a[0] == "se")
+      {
+         r << (t.EnsureSize((uint32)atoi(a[1].c_str())).IsOK() ? "s0" : "s1");
+      }
+      else r << "?";
+      if (t.GetNumItems() != ideal.size()) {oracle_ok = false; why = "item count differs from the ideal map after op " + ops[n];}
+      // every stored index must fit the chosen width with room for the sentinel
+      if (t._table)
+      {
+         const uint32 lim = (t.GetTableIndexType() == 0) ? 255u : ((t.GetTableIndexType() == 1) ? 65535u : 4294967295u);
+         if (t._tableSize > lim) {oracle_ok = false; why = "table size exceeds the index width at op " + ops[n];}
+      }
+      out += r.str(); out += " "; out += dump_store(t); out += ";";
+   }
+   // all keys of the ideal map are found with their values, in any order
+   for (std::map<int,int>::const_iterator it = ideal.begin(); it != ideal.end(); ++it)
+   {
+      const int * v = t.Get(it->first);
+      if ((v == NULL)||(*v != it->second)) {oracle_ok = false; why = "final lookup disagrees with the ideal map";}
+   }
+   printf("%d %s\n", k, out.c_str());
+   if (!oracle_ok) printf("%d ORACLE FAIL %s\n", k, why.c_str());
+}
+
 int main()
 {
    std::string line;
@@ -685,6 +781,17 @@ int main()
       {
          std::string head = line.substr(0, p);
          const std::string body = line.substr(p+1);
+         if ((!head.empty())&&(head[0] == 'S'))
+         {
+            std::vector<std::string> sp = split(head, ',');
+            const char hm = (sp[0].size() > 1) ? sp[0][1] : '0';
+            const int size = (sp.size() > 1) ? atoi(sp[1].c_str()) : 0;
+            if (hm == '1') run_store_case<Hashtable<int,int,CollidingHF> >(k, size, body);
+            else if (hm == '2') run_store_case<Hashtable<int,int,MulHF> >(k, size, body);
+            else run_store_case<Hashtable<int,int,IdHF> >(k, size, body);
+            k++;
+            continue;
+         }
          bool big = false;
          if ((!head.empty())&&(head[0] == 'B')) {big = true; head = head.substr(1);}
          std::vector<std::string> hp = split(head, ',');
